@@ -128,6 +128,11 @@ def main(argv=None):
     ap.add_argument('--jobs', type=int, default=int(os.environ.get('PYVC_JOBS', '16')))
     ap.add_argument('--verbose', '-v', action='store_true')
     a = ap.parse_args(argv)
+    try:
+        from pyvc import arena
+        arena.install()      # performance only (pyvc/native/arena_cache.c); harness processes are forked from this one and inherit it
+    except Exception:
+        pass
     os.environ['VERIF_TIER'] = a.tier
     prop = a.prop.upper()
     seed = int(os.environ.get('VERIF_SEED', '0') or 0)
@@ -256,9 +261,12 @@ def main(argv=None):
         tail = '' if (rep and rep.get('reproduced')) else ' no-failing-input-found'
         lines.append('VIOLATION property=%s replay=%s obligation=%s%s' % (prop, path, oid, tail))
         real_violations.append(oid)
+    by_kf = {}
     for kfid, oid, w in known_hits:
+        by_kf.setdefault(kfid, []).append(oid)
+    for kfid, oids in by_kf.items():
         k = known_ids[kfid]
-        lines.append('KNOWN-FINDING: property=%s %s [%s] %s' % (prop, kfid, oid, k.get('what', '')))
+        lines.append('KNOWN-FINDING: property=%s %s [%s] %s' % (prop, kfid, '; '.join(oids), k.get('what', '')))
 
     if errors:
         rc = 3
